@@ -331,9 +331,28 @@ class Seq(object):
       return False
     self.nid += 1
     self.counters['arrivals'] += 1
-    name = 'id%d' % self.nid
+    name = self.name_of(self.nid)
     self.instr.increment('metricsReceived')      # what the listener (played by the harness) counts for every datapoint
+    # the destinations the router names for this series right now (the "no destination" buffer when it names none)
+    try:
+      want = set(self._fname(d) for d in self.manager.router.getDestinations(name)) or {'fake'}
+    except Exception:
+      want = None
+    n0 = dict((k, len(v)) for k, v in self.entries.items())
     self.events.metricReceived(name, (self.nid, float(self.nid)))
+    if want is not None and not self.stopped:
+      took = set(k for k, v in self.entries.items() if any(e['id'] == self.nid for e in v[n0.get(k, 0):]))
+      self.counters['routing_evaluations'] = self.counters.get('routing_evaluations', 0) + 1
+      if took != want:
+        self.viol('routing/not-where-the-router-says', 'id %d (%r) was handed to %r, the router names %r (live destinations %r)' % (
+          self.nid, name, sorted(took), sorted(want), sorted(self._fname(d) for d in self.dests if self.manager.router.hasDestination(d))))
+
+  def name_of(self, ident):
+    """Every seventh datapoint is a series under the daemons' own prefix relayed for another daemon (carbon.agents.*):
+    received datapoints like all others."""
+    if ident % 7 == 3:
+      return '%s.agents.host-b.id%d' % (self.settings.CARBON_METRIC_PREFIX, ident)
+    return 'id%d' % ident
 
   def ev_fill(self, i):
     """Macro event: datapoints keep arriving until the receivers get paused (bounded)."""
@@ -351,7 +370,7 @@ class Seq(object):
       return False
     self.nid += 1
     self.counters['hp_arrivals'] += 1
-    self.manager.sendHighPriorityDatapoint('id%d' % self.nid, (self.nid, float(self.nid)))
+    self.manager.sendHighPriorityDatapoint(self.name_of(self.nid), (self.nid, float(self.nid)))
 
   def ev_conn_made(self, i):
     c = self.connector(i)
@@ -462,7 +481,7 @@ class Seq(object):
       w = self.written(d)
       wid = [x[0] for x in w]
       for (i, m, v) in w:
-        if m != 'id%d' % i or v != float(i):
+        if m != self.name_of(i) or v != float(i):
           self.viol('wire/altered', '%s: datapoint id %d written as (%r, %r)' % (key, i, m, v))
       q = [int(x[1][0]) for x in f.queue]
       cw, ca = Counter(wid), Counter(e['id'] for e in acc)
